@@ -60,6 +60,9 @@ CLAIMED["C13"] = dict(engine="channel", tech="TLA+ model Channel.tla (FinishSess
    text="The model is checked for every moment of termination relative to traffic in flight; real sessions are ended at seeded moments and what both parties observe (terminal state, receiver-done, streams, consumers, connection, goroutine census, process survival) is checked by TLC.", ref="DESIGN.md 3.2, 5 (C13)", note=CHAN_NOTE)
 CLAIMED["C17"] = dict(engine="channel", tech="TLA+ model Iso.tla (per-connection channels, session context built from the channel that owns the connection, sender = that channel, fresh session ids, arbitrary registered nodes) checked by TLC; free runs of 3-12 concurrent real sessions on one Server listening on TCP, WebSocket and in-process at once, registration assigning equal addresses to several sessions; TLC monitor ChanObs (C17_Isolated)",
    text="All interleavings of three sessions' traffic are checked on the model; on the real Server every handler invocation's context values are compared with what that client's session announced, and every reply sent through the handler's sender is followed to the client that receives it.", ref="DESIGN.md 3.5, 5 (C17)", note=CHAN_NOTE)
+CLAIMED["C19"] = dict(engine="client-life", tech="TLA+ model ClientLife.tla (cached channel, getOrBuildChannel reuse rule, listener loop, effect of each fault on state / connected / receiver) checked by TLC incl. the liveness property Recovers under fairness and the invariant NoSpin; a real Client against a scripted raw server for every fault kind x moment; TLC monitor CliObs (C19_Recovers, C19_NoSpin, C19_SendTruth, C19_Closes)",
+   text="Seven fault kinds (server finish, server fail, abrupt close, half close, undecodable bytes, non-envelope JSON, oversized envelope) x three moments (idle, during user sends, repeated on the re-established session) are each executed on the real Client; sessions opened at the server, handler deliveries on the new session and the iteration rate of the listener loop (verif hook) are recorded and checked by TLC.", ref="DESIGN.md 3.6, 5 (C19)",
+   note="TCP transport with a 4 KiB read limit; the scripted server accepts throughout a 3 s window; spin threshold 1000 iterations/s; SendTruth is claimed for sends on a healthy session (before the fault, after recovery); trusted: TLC, CommunityModules Json, Go runtime.")
 CLAIMED["C06"]["engine"] = "hs-server+hs-client"
 CLAIMED["C06"]["note"] = HS_NOTE + " Both roles: server role on HsServer behaviours, client role on HsClient behaviours."
 CLAIMED["C06"]["tech"] += " and HsClient.tla + C06_ClientSendGuard for the client role"
@@ -93,6 +96,9 @@ m = {
            "baseline_off_cmd": "cd /repo && GOFLAGS=-mod=mod GOPROXY=off GOSUMDB=off GOTOOLCHAIN=local go test -json -vet=off -count=1 -timeout 25m ./...",
            "source_commits": hook_commits, "add_only": True},
  "engines": [
+   {"name": "client-life", "path": "spec/ClientLife.tla spec/CliObs.tla harness/clid tools/engines/clientlife.py",
+    "serves_properties": ["C19"],
+    "kind_free_text": "TLA+ model of the Client's channel cache and listener loop with safety and liveness checked by TLC, fault injection against a real Client, TLC trace monitor"},
    {"name": "channel", "path": "spec/Channel.tla spec/ChannelMC.tla spec/Iso.tla spec/IsoMC.tla spec/ChanProps.tla spec/ChanObs.tla harness/chand tools/engines/chan.py",
     "serves_properties": ["C04", "C13", "C17"],
     "kind_free_text": "TLA+ model of the established data path and teardown, exhaustive TLC check, perturbed free runs of real sessions over five transports (process per run), TLC trace monitor"},
